@@ -3,21 +3,47 @@ Impl/C04.lean — object-level model for C04: which Python objects a public call
 
 Heap = the DataFrame objects alive so far (index = identity), the user's Column handles, and a
 counter of statements sent to the engine.  A DataFrame object carries the value-level state of the
-C01 model plus its display-name map.  Every public call appends new objects; the only writes the
-real code performs on *pre-existing* objects are (a) `_update_display_name_mapping` when it is applied
-to the receiver and the decorator did not wrap (decided by Gen.Purity.display_* and Gen.Operations),
-and (b) `normalize()` rewriting a caller's Column in place (Gen.Purity.normalize*Copies).
+C01 model plus its display-name map plus its *hint state*: the pending hints (`pending_hints`), the hint
+clause of its open block and the hint clauses of the CTEs frozen so far.  Every public call appends new
+objects; the writes the real code could perform on *pre-existing* objects are
+ (a) `_update_display_name_mapping` when it is applied to the receiver and the decorator did not wrap
+     (decided by Gen.Purity.display_* and Gen.Operations),
+ (b) `normalize()` rewriting a caller's Column in place (Gen.Purity.normalize*Copies),
+ (c) `_resolve_pending_hints` — run by every rendering (`sql()`), every action and every CTE wrap — moving the
+     pending partition hints into a hint clause: on which object it iterates, removes and attaches is
+     regenerated (Gen.Purity.resolve*), as is the object `_hint` appends to (Gen.Purity.hintAppendsTo),
+ (d) a method body that writes through the receiver (the table Gen.Purity.receiverWrites, from a static
+     alias analysis of every method of BaseDataFrame; `limit`'s body is regenerated statement by statement).
 sqlglot's builders are taken to return fresh trees (`copy=True`); aliasing *inside* sqlglot trees is not
 modelled and is seen only by the harness' deep snapshots.
 -/
 import SqlframeModel.Impl.C01Scope
 import SqlframeModel.Gen.Purity
+import SqlframeModel.Gen.Writes
 namespace Sqlframe
 open Gen
+
+/-- one element of `pending_hints`: a JoinHint (BROADCAST, …: waits for a join) or a partition hint
+    (REPARTITION / COALESCE / any other name: goes into the hint clause of the block) -/
+structure Hint where
+  join : Bool
+  text : String
+  /-- identity of the hint *node* (index into `Heap.cells`); `copy()` hands the same nodes to the new DataFrame when
+      `copySharesHintNodes`.  Only a join hint's node is ever rewritten: its cell holds the sequence id it names. -/
+  cell : Nat := 0
+  deriving DecidableEq, Repr
 
 structure Obj where
   df : DF
   display : List (Name × String)
+  /-- `pending_hints` -/
+  pending : List Hint := []
+  /-- the hint clause of the open block (`expression.args["hint"]`) -/
+  attached : List Hint := []
+  /-- the non-empty hint clauses of the frozen CTEs, oldest first -/
+  frozen : List (List Hint) := []
+  /-- `sequence_id`: shared by a DataFrame and everything derived from it, until `alias` draws a new one -/
+  seq : Nat := 0
   deriving Repr
 
 /-- a user-held Column handle: its qualifier is a DataFrame's branch id until `normalize` resolves it to a CTE name -/
@@ -33,6 +59,10 @@ structure Heap where
   objs : List Obj
   handles : List Handle
   engineCalls : Nat
+  /-- the sequence id each join-hint node names -/
+  cells : List Nat := []
+  /-- the next fresh sequence id -/
+  nextSeq : Nat := 1
   deriving Repr
 
 /-- methods that record display names -/
@@ -46,13 +76,35 @@ def Namer.target : Namer → DisplayTarget
   | .withColumnRenamed => display_withColumnRenamed
   | .none => .never
 
+/-- the three public methods that end in `_hint` -/
+inductive HintMethod | hint | repartition | coalesce
+  deriving DecidableEq, Repr
+
+def HintMethod.tag : HintMethod → Option Op
+  | .hint => tag_hint | .repartition => tag_repartition | .coalesce => tag_coalesce
+
+/-- how an action reaches the engine: `_get_expressions` / `_convert_leaf_to_cte` on the receiver itself
+    (collect, toPandas, toArrow, count), not through the hint resolution at all (schema), or through a derived
+    DataFrame (`show`/`head`/`first` = `self.limit(n).collect()`, `isEmpty` = `self.select(…).head()`) -/
+inductive Via
+  | direct
+  | none
+  | step (s : Step)
+  deriving Repr
+
 inductive Call
   /-- `objs[r].<method>(…)`: a C01 step that records the spellings `names`, mentions the handles `hs` -/
   | transform (r : Nat) (s : Step) (namer : Namer) (names : List (Name × String)) (hs : List Nat)
-  /-- an action (collect/count/show/…): sends `k ≥ 1` statements -/
-  | action (r : Nat) (k : Nat)
+  /-- an action (collect/count/show/…): sends `k + 1` statements -/
+  | action (r : Nat) (k : Nat) (via : Via)
   /-- `df[...]` / `df.attr`: creates a new handle -/
   | getItem (r : Nat) (n : Name)
+  /-- `hint(name)` / `repartition(n)` / `coalesce(n)` -/
+  | hint (r : Nat) (m : HintMethod) (h : Hint)
+  /-- `sql()`: renders the statement, sends nothing -/
+  | render (r : Nat)
+  /-- `alias(name)` -/
+  | alias (r : Nat)
   deriving Repr
 
 def updDisplay (m : List (Name × String)) (names : List (Name × String)) : List (Name × String) :=
@@ -78,29 +130,159 @@ def resolveHandle (h : Handle) : Handle :=
   | .branch b => { h with qual := .cte b }
   | _ => h
 
+/-! ### `_resolve_pending_hints` -/
+
+def partHints (l : List Hint) : List Hint := l.filter (fun h => !h.join)
+def joinHints (l : List Hint) : List Hint := l.filter (fun h => h.join)
+
+structure Resolved where
+  /-- the object the method was called on, afterwards -/
+  recv : Obj
+  /-- the object the method returns (rendered by `_get_expressions`, frozen by `_convert_leaf_to_cte`) -/
+  work : Obj
+  deriving Repr
+
+/-- `df = self.copy(); if not self.pending_hints: return df; for hint in <it>.pending_partition_hints:
+    hint_expression.append(hint); <rm>.pending_hints.remove(hint); …; <at>.expression.set("hint", …); return <ret>`
+    (join hints wait for a join, which this alphabet does not contain: they stay pending) -/
+def resolveHints (o : Obj) : Resolved :=
+  if o.pending.isEmpty then ⟨o, o⟩ else
+  let parts := partHints o.pending
+  let recv : Obj := { o with
+    pending := if resolveRemovesFrom = .onSelf then joinHints o.pending else o.pending,
+    attached := if resolveAttachesTo = .onSelf then o.attached ++ parts else o.attached }
+  let work : Obj := { o with
+    pending := if resolveRemovesFrom = .onCopy then joinHints o.pending else o.pending,
+    attached := if resolveAttachesTo = .onCopy then o.attached ++ parts else o.attached }
+  ⟨recv, if resolveReturns = .onCopy then work else recv⟩
+
+def clauseText (c : List Hint) : String := ", ".intercalate (c.map (·.text))
+
+/-- the hint comments `sql()` shows, in the order of the statement: one per frozen CTE that carries a clause,
+    then the open block's -/
+def hintView (o : Obj) : List String :=
+  ((o.frozen ++ [(resolveHints o).work.attached]).filter (fun c => !c.isEmpty)).map clauseText
+
+/-- did `apply` freeze at least one CTE? -/
+def wraps (d d' : DF) : Bool := decide (d.hist.length < d'.hist.length)
+
+/-- is the first `_convert_leaf_to_cte` of this step run on the receiver object itself (by the decorator, or by a body
+    that calls it on `self`) rather than on a copy made by the body? -/
+def stepResolvesReceiver (s : Step) (d : DF) : Bool :=
+  !bodySeesReceiver s.tag d || (match s with | .unpivot _ _ _ _ => true | _ => false)
+
+/-- the hint state a derived DataFrame starts from: after a wrap the resolved clause is frozen with the CTE -/
+def derivedHints (o : Obj) (wrapped : Bool) : List Hint × List Hint × List (List Hint) :=
+  if wrapped then
+    let w := (resolveHints o).work
+    (w.pending, [], if w.attached.isEmpty then o.frozen else o.frozen ++ [w.attached])
+  else (o.pending, o.attached, o.frozen)
+
+/-- give the join hints of a copied list their own nodes, numbered from `base` -/
+def renumber (base : Nat) : List Hint → List Hint
+  | [] => []
+  | x :: xs => if x.join then { x with cell := base } :: renumber (base + 1) xs else x :: renumber base xs
+
+/-- the hint state of the DataFrame a C01 step derives.
+    `unpivot` freezes twice: `df = self._convert_leaf_to_cte()` (the hints are resolved on a copy) and then
+    `self.copy(expression=…)._convert_leaf_to_cte()` — `self` still has them pending, so the clause is frozen a second time
+    (visible when there is one value column: the clause is then set on a SELECT; on a UNION the generator does not print it) -/
+def transformHints (o : Obj) (s : Step) : List Hint × List Hint × List (List Hint) :=
+  let hints := derivedHints o (wraps o.df (o.df.apply s))
+  match s with
+  | .unpivot _ vals _ _ =>
+    if bodySeesReceiver s.tag o.df && !(partHints o.pending).isEmpty && vals.length == 1 then (hints.1, hints.2.1, hints.2.2 ++ [partHints o.pending]) else hints
+  | _ => hints
+
+def execTransform (h : Heap) (r : Nat) (s : Step) (namer : Namer) (names : List (Name × String)) (hs : List Nat) : Heap :=
+  match h.objs[r]? with
+  | none => h
+  | some o =>
+    let d' := o.df.apply s
+    let wrapped := wraps o.df d'
+    let hints := transformHints o s
+    let newObj : Obj := { df := d', display := updDisplay o.display names,
+                          pending := hints.1, attached := hints.2.1, frozen := hints.2.2, seq := o.seq }
+    -- (c) the receiver's pending hints, when the wrap runs on the receiver itself
+    let o1 : Obj := if wrapped && stepResolvesReceiver s o.df then (resolveHints o).recv else o
+    -- (a) display names recorded on the receiver when the body sees the receiver itself
+    let o2 : Obj :=
+      if namer.target = .onSelf && bodySeesReceiver s.tag o.df
+      then { o1 with display := updDisplay o.display names } else o1
+    -- (b) handles rewritten in place unless normalisation works on copies
+    let handles :=
+      if normalizeColsCopies && normalizeColCopies then h.handles
+      else hs.foldl (fun acc i => match acc[i]? with | some x => setAt acc i (resolveHandle x) | none => acc) h.handles
+    { h with objs := setAt h.objs r o2 ++ [newObj], handles := handles }
+
 def exec (h : Heap) : Call → Heap
-  | .transform r s namer names hs =>
+  | .transform r s namer names hs => execTransform h r s namer names hs
+  | .action r k via =>
+    let h1 : Heap :=
+      match via with
+      | .direct =>
+        (match h.objs[r]? with
+         | some o => { h with objs := setAt h.objs r (resolveHints o).recv }
+         | none => h)
+      | .none => h
+      | .step s =>
+        -- the derived DataFrame is dropped after its collect(); what the derivation did to the receiver stays
+        let h' := execTransform h r s .none [] []
+        { h' with objs := h'.objs.take h.objs.length }
+    { h1 with engineCalls := h.engineCalls + k + 1 }
+  | .getItem r n => { h with handles := h.handles ++ [{ qual := .branch r, name := n }] }
+  | .hint r m hint =>
     match h.objs[r]? with
     | none => h
     | some o =>
-      let newObj : Obj := { df := o.df.apply s, display := updDisplay o.display names }
-      -- (a) display names recorded on the receiver when the body sees the receiver itself
-      let objs :=
-        if namer.target = .onSelf && bodySeesReceiver s.tag o.df
-        then setAt h.objs r { o with display := updDisplay o.display names } else h.objs
-      -- (b) handles rewritten in place unless normalisation works on copies
-      let handles :=
-        if normalizeColsCopies && normalizeColCopies then h.handles
-        else hs.foldl (fun acc i => match acc[i]? with | some x => setAt acc i (resolveHandle x) | none => acc) h.handles
-      { objs := objs ++ [newObj], handles := handles, engineCalls := h.engineCalls }
-  | .action _ k => { h with engineCalls := h.engineCalls + k + 1 }
-  | .getItem r n => { h with handles := h.handles ++ [{ qual := .branch r, name := n }] }
+      let d' := wrapper m.tag id o.df
+      let wrapped := wraps o.df d'
+      let hints := derivedHints o wrapped
+      -- `_hint`: new_df = self.copy(); <target>.pending_hints.append(hint); return new_df
+      -- (a join hint without parameters names the DataFrame's own sequence id: a new node)
+      let hint : Hint := { hint with cell := h.cells.length }
+      let newObj : Obj := { df := d', display := o.display,
+                            pending := if hintAppendsTo = .onCopy then hints.1 ++ [hint] else hints.1,
+                            attached := hints.2.1, frozen := hints.2.2, seq := o.seq }
+      let o1 : Obj := if wrapped then (resolveHints o).recv else o
+      let o2 : Obj := if hintAppendsTo = .onSelf && !wrapped then { o1 with pending := o1.pending ++ [hint] } else o1
+      { h with objs := setAt h.objs r o2 ++ [newObj], cells := h.cells ++ [o.seq] }
+  | .render r =>
+    match h.objs[r]? with
+    | some o => { h with objs := setAt h.objs r (resolveHints o).recv }
+    | none => h
+  | .alias r =>
+    match h.objs[r]? with
+    | none => h
+    | some o =>
+      -- decorator (NO_OP tag), then the body: df = self.copy(); re-point the join hints that name this DataFrame at the
+      -- new sequence id; df._convert_leaf_to_cte(sequence_id=new)  (always a wrap)
+      let dIn := wrapper tag_alias id o.df
+      let decoWrapped := wraps o.df dIn
+      let o1 : Obj := if decoWrapped then (resolveHints o).recv else o
+      let self' : Obj := if decoWrapped
+        then (let hs := derivedHints o true; { o with df := dIn, pending := hs.1, attached := hs.2.1, frozen := hs.2.2 })
+        else { o with df := dIn }
+      let newSeq := h.nextSeq
+      -- the hint nodes the loop rewrites: the receiver's own (the copy shares them and they are rewritten in place), or new ones
+      let repointed : List Hint × List Nat :=
+        if copySharesHintNodes && aliasRewritesHintNode then
+          (self'.pending, (joinHints self'.pending).foldl (fun cs x => if cs[x.cell]? = some o.seq then cs.set x.cell newSeq else cs) h.cells)
+        else
+          (renumber h.cells.length self'.pending,
+           h.cells ++ (joinHints self'.pending).map (fun x => let v := (h.cells[x.cell]?).getD 0; if v = o.seq then newSeq else v))
+      let cp : Obj := { self' with pending := repointed.1 }
+      let hs := derivedHints cp true
+      let newObj : Obj := { df := cp.df.wrap, display := o.display,
+                            pending := hs.1, attached := hs.2.1, frozen := hs.2.2, seq := newSeq }
+      { h with objs := setAt h.objs r o1 ++ [newObj], cells := repointed.2, nextSeq := h.nextSeq + 1 }
 
 def runCalls (h : Heap) (cs : List Call) : Heap := cs.foldl exec h
 
-/-- what an existing DataFrame reports: its rows/columns (value state) and the spelling of its columns -/
-def observe (o : Obj) : Table × List String :=
-  (o.df.eval, o.df.eval.cols.map (fun c => match o.display.find? (fun p => p.1 = c) with | some p => p.2 | none => c))
+/-- what an existing DataFrame reports: its rows/columns (value state), the spelling of its columns, and the hint
+    comments of its statement -/
+def observe (o : Obj) : Table × List String × List String :=
+  (o.df.eval, o.df.eval.cols.map (fun c => match o.display.find? (fun p => p.1 = c) with | some p => p.2 | none => c), hintView o)
 
 /-- public transformations, as PySpark documents them -/
 def transformations : List String :=
@@ -110,6 +292,24 @@ def transformations : List String :=
    "intersectAll", "exceptAll", "alias", "hint", "repartition", "coalesce", "cache", "persist", "transform",
    "copy", "columns", "sql", "na", "stat", "write", "createOrReplaceTempView"]
 
+/-- internal state that decides what later derivations render: for each pending join hint, does its node still name
+    this DataFrame's own sequence id? -/
+def hintTargets (cells : List Nat) (o : Obj) : List Bool :=
+  (joinHints o.pending).map (fun x => decide (cells[x.cell]? = some o.seq))
+
+def Call.isAlias : Call → Bool
+  | .alias _ => true
+  | _ => false
+
+/-- scope hypothesis: hint nodes are private to each DataFrame (repaired source), or the history does not alias -/
+def H_hint_nodes_private (cs : List Call) : Prop :=
+  (copySharesHintNodes && aliasRewritesHintNode) = false ∨ ∀ c ∈ cs, c.isAlias = false
+
+instance (cs : List Call) : Decidable (H_hint_nodes_private cs) := by unfold H_hint_nodes_private; exact inferInstance
+
 def lookupReach (m : String) : Option Bool := (reachesEngine.find? (fun p => p.1 = m)).map (·.2)
+
+/-- the receiver-owned state a method writes (static alias analysis; `none` = no such method) -/
+def lookupWrites (m : String) : Option (List String) := (receiverWrites.find? (fun p => p.1 = m)).map (·.2)
 
 end Sqlframe
